@@ -49,3 +49,15 @@ Theorem C19_reader_decodes_by_flag : forall data pos ao f p',
     f_comment f = decode_text (N.testbit flags 11) rawc.
 Proof. exact reader_text. Qed.
 Print Assumptions C19_reader_decodes_by_flag.
+
+(* the streaming reader: the name of a streamed entry is the decoding of the LOCAL header's name bytes by the local
+   header's own flag bit; the raw name is those bytes *)
+From ZipV Require Import Model.Stream.
+Theorem C19_stream_decodes_by_flag : forall data pos e,
+  stream_next data pos = Ok (SFile e) ->
+  exists flags nl,
+    u16_at data (pos + 6) = Ok flags /\ u16_at data (pos + 26) = Ok nl /\
+    rd_at data (pos + 30) nl = Ok (f_name_raw (se_file e)) /\
+    f_name (se_file e) = decode_text (N.testbit flags 11) (f_name_raw (se_file e)).
+Proof. exact stream_text. Qed.
+Print Assumptions C19_stream_decodes_by_flag.
